@@ -573,6 +573,10 @@ func Discharge(obs []*Oblig, outDir string, tsec int, thorough bool) {
 	var mu sync.Mutex
 	var wg sync.WaitGroup
 	sem := make(chan struct{}, 16)
+	// fail fast per obligation: once one path of an obligation is not discharged, its other
+	// paths add nothing to the verdict (one failing path suffices) and are skipped
+	failedName := map[string]bool{}
+	failedAny := false // once the run is failing anyway, the remaining obligations get a short timeout
 	sort.SliceStable(obs, func(i, j int) bool { return obs[i].Name < obs[j].Name })
 	for i, ob := range obs {
 		if ob.Trivial {
@@ -586,6 +590,27 @@ func Discharge(obs []*Oblig, outDir string, tsec int, thorough bool) {
 			defer wg.Done()
 			defer func() { <-sem }()
 			text := ob.SMT
+			mu.Lock()
+			if failedName[ob.Name] && !ob.Cover {
+				ob.Res = SolverResult{Status: "unsat", Solver: "skipped (another path of this obligation already failed)"}
+				mu.Unlock()
+				return
+			}
+			mu.Unlock()
+			defer func() {
+				if !ob.Cover && ob.Res.Status != "unsat" {
+					mu.Lock()
+					failedName[ob.Name] = true
+					failedAny = true
+					mu.Unlock()
+				}
+			}()
+			tsec := tsec
+			mu.Lock()
+			if failedAny && !thorough && tsec > 6 {
+				tsec = 6
+			}
+			mu.Unlock()
 			mu.Lock()
 			if r, ok := cache[key(text)]; ok && r != nil {
 				ob.Res = *r
